@@ -47,10 +47,12 @@ static std::vector<Comp> menu()
 
 static void geometry(int g, cvm::rvector *x)
 {
-  static const double P[3][NAT][3] = {
+  static const double P[5][NAT][3] = {
       {{0, 0, 0}, {1.5, 0.2, 0}, {0.2, 1.4, 0.3}, {-0.4, 0.6, 1.6}, {1.1, -0.8, 0.9}, {2.0, 1.1, -0.7}, {5, 5, 5}},
       {{0.3, -0.2, 0.1}, {1.2, 0.9, -0.4}, {-0.7, 1.6, 0.8}, {0.1, 0.2, 2.1}, {1.9, -0.3, 1.2}, {2.4, 1.5, 0.2}, {-4, 3, 6}},
-      {{-0.5, 0.4, 0.2}, {0.9, -0.6, 0.5}, {0.6, 1.9, -0.3}, {-1.1, 1.0, 1.4}, {0.7, -1.2, 1.8}, {1.6, 0.8, -1.3}, {6, -5, 4}}};
+      {{-0.5, 0.4, 0.2}, {0.9, -0.6, 0.5}, {0.6, 1.9, -0.3}, {-1.1, 1.0, 1.4}, {0.7, -1.2, 1.8}, {1.6, 0.8, -1.3}, {6, -5, 4}},
+      {{0.8, 0.1, -0.6}, {-0.7, 0.5, 0.3}, {0.4, -1.3, 1.1}, {1.7, 0.9, 0.6}, {-0.2, 1.8, -0.9}, {-1.5, -0.8, 1.2}, {4, 6, -5}},
+      {{2.3, 1.1, 0.4}, {3.1, -0.2, 1.3}, {1.2, -0.9, 2.2}, {2.6, 0.7, 3.4}, {4.0, 1.6, 2.1}, {0.5, 0.3, 1.0}, {-6, 4, 5}}};
   for (int a = 0; a < NAT; a++) x[a] = cvm::rvector(P[g][a][0], P[g][a][1], P[g][a][2]);
 }
 static const double MASS[NAT] = {1.0, 12.0, 16.0, 14.0, 1.0, 32.0, 12.0};
@@ -100,7 +102,7 @@ int main(int argc, char **argv)
   std::vector<Comp> comps = menu();
   struct Job { size_t ci; int g; };
   std::vector<Job> jobs;
-  for (size_t ci = 0; ci < comps.size(); ci++) for (int g = 0; g < (thorough ? 3 : 2); g++) jobs.push_back({ci, g});
+  for (size_t ci = 0; ci < comps.size(); ci++) for (int g = 0; g < (thorough ? 5 : 3); g++) jobs.push_back({ci, g});
 
   Result total;
   bool ok = run_sharded(std::min<int>(args.jobs, jobs.size()), [&](int shard, int nsh, Result &r) {
